@@ -39,6 +39,7 @@ verus! {
 broadcast use {vstd::std_specs::hash::group_hash_axioms, mainw_ax::group_mainw_ax, tstr::group_tstr, globset::group_globset, mainw_paths::group_mainw_paths};
 
 //@include prelude/orch_model.rs
+//@include prelude/report_printable.rs
 //@include prelude/mainw_args.rs
 
 //@item file=src/flags.rs kind=enum name=SubCommand
@@ -324,7 +325,9 @@ pub struct LanguageParser { p: std::rc::Rc<std::cell::RefCell<Box<dyn std::any::
 
 //@copyfrom file=groups/detect.rs from=<<// `type DetectorFactory = fn()>> until=<<// ---- E3 shim>>
 
-//@copyfrom file=groups/report.rs from=<</// some violation of the run has severity>> until=<</// the JSON value of one violation>>
+// C11, the reporting stage (specification of group report: `exists_error`, `report_is`, the stderr world,
+// `stderr_report_fails` / `stderr_report_written`), copied textually: V8g's contract below is stated with it
+//@copyfrom file=groups/report.rs from=<</// some violation of the run has severity>> until=<<// ---- end of the specification shared with group mainwire>>
 
 // ---- the world ---------------------------------------------------------------------------------------
 /// what clap makes of this process's command line (`Args::parse()`; exits on a syntax error)
@@ -361,16 +364,10 @@ pub uninterp spec fn parse_blocks_spec(line_changes: Map<PathBuf, Vec<LineChange
     allow: GlobSet, ignore: GlobSet, parsers: Map<OsString, LanguageParser>, extra: Map<OsString, OsString>) -> Option<Map<PathBuf, FileBlocks>>;
 /// `ValidationContext::to_serializable_report` (unit L2 of group listreport) as a function
 pub uninterp spec fn list_report_spec(blocks: Map<PathBuf, FileBlocks>) -> Map<PathBuf, Vec<serde_json::Value>>;
-/// writing this report to stdout succeeds (`serde_json::to_writer_pretty(stdout, ..)` returns `Ok`). Uninterpreted:
-/// the only way to learn it is to make the call, so an `Ok` result that claims it is evidence of the call.
-pub uninterp spec fn stdout_write_ok_spec(report: Map<String, Vec<serde_json::Value>>) -> bool;
-// INTERIM (being replaced by unit V8p of group report): `with_printable_paths` of src/main.rs as a trusted stub
-pub uninterp spec fn printable_spec(m: Map<PathBuf, Vec<serde_json::Value>>) -> Map<String, Vec<serde_json::Value>>;
-#[verifier::external_body]
-pub fn with_printable_paths(report: HashMap<PathBuf, Vec<serde_json::Value>>) -> (r: HashMap<String, Vec<serde_json::Value>>)
-    ensures r@ == printable_spec(report@)
-{ unimplemented!() }
-
+/// writing this map as one pretty-printed JSON object to stdout succeeds. Uninterpreted: the world decides, and the
+/// only way to learn it is to make the call, so an `Ok` result that claims it is evidence of the call. Generic in the
+/// key type: the statement is about the writer, not about what serde makes of the keys (`keys_serialisable`).
+pub uninterp spec fn stdout_write_ok_spec<K>(report: Map<K, Vec<serde_json::Value>>) -> bool;
 /// the constant `validators::DETECTOR_FACTORIES`
 pub uninterp spec fn detector_table() -> Seq<(&'static str, DetectorFactory)>;
 
@@ -466,6 +463,13 @@ pub open spec fn expected_list_report() -> Option<Map<PathBuf, Vec<serde_json::V
         Some(b) => Some(list_report_spec(b)),
         None => None,
     }
+}
+
+/// every step of `main` before the `list` / validation stage succeeds: grammar table, both glob sets, root
+/// discovery, reading and parsing the diff, parsing the files
+pub open spec fn setup_succeeds() -> bool {
+    grammar_table() is Some && expected_allow() is Some && expected_ignore() is Some && expected_root() is Some
+        && expected_line_changes() is Some && expected_blocks() is Some
 }
 
 /// `compile_all` yields one glob per pattern
@@ -629,17 +633,28 @@ pub mod serde_json {
         fn from(e: Error) -> anyhow::Error { anyhow::verif_err() }
     }
 
-    /// `serde_json::to_writer_pretty(std::io::stdout(), &report)`: the output itself is not modelled.
+    /// the JSON value of one diagnostic (E2; same declaration as in prelude/orch_ext_report.rs: used by the copied
+    /// specification of group report)
+    pub uninterp spec fn json_of(range: crate::ViolationRange, code: Seq<char>, message: Seq<char>, severity: crate::BlockSeverity, data: Option<Value>) -> Value;
+
+    /// `serde_json::to_writer_pretty(std::io::stdout(), &report)` (generic over `W: io::Write`, `T: ?Sized + Serialize`
+    /// in the real crate), at the two shapes `main` has had: `&HashMap<String, Vec<Value>>` (after 6239843) and
+    /// `&HashMap<PathBuf, Vec<Value>>` (before). The output itself is not modelled.
     /// Call-site obligations (M1, C11): only under `list`, only after the command line was accepted,
-    /// and what is written is the report of the run's blocks.
+    /// and what is written shows the report of the run's blocks (`JsonKey::map_shows`: for `String` keys the report
+    /// keyed by printable paths, `is_printable`; for `PathBuf` keys the report itself).
+    /// TRUSTED ASSUMPTION (T-ext, serde_json `ser.rs` / serde `impl Serialize for Path`; same as the stderr shim of
+    /// group report): the call fails exactly when (a) some KEY cannot be written as the name of an object member
+    /// (`JsonKey::key_serialisable`: never for `String`; for `PathBuf` when the path is not valid Unicode: "path
+    /// contains invalid UTF-8 characters"), or (b) the writer fails (`stdout_write_ok_spec`, uninterpreted).
     #[verifier::external_body]
-    pub fn to_writer_pretty(w: std::io::Stdout, v: &HashMap<String, Vec<Value>>) -> (r: Result<()>)
+    pub fn to_writer_pretty<K: JsonKey>(w: std::io::Stdout, v: &HashMap<K, Vec<Value>>) -> (r: Result<()>)
         requires
             !cli_rejected(), // [M1.post.invalid_flags_rejected_before_listing]
             is_list_command(process_args()), // [M1.post.report_written_only_for_list]
-            expected_list_report() matches Some(e) && v@ == printable_spec(e), // [M1.post.list_writes_report_of_the_runs_blocks]
+            expected_list_report() is Some && K::map_shows(v@, expected_list_report().unwrap()), // [M1.post.list_writes_report_of_the_runs_blocks]
         ensures
-            r is Ok <==> stdout_write_ok_spec(v@),
+            r is Ok <==> keys_serialisable(v@) && stdout_write_ok_spec(v@),
     { unimplemented!() }
 }
 
@@ -770,6 +785,9 @@ pub mod validators {
     { unimplemented!() }
 }
 
+// unit V8p of group report: `with_printable_paths`, with its proven contract (absent from texts before 6239843)
+//@stubof group=report unit=V8p optional=1
+
 // unit V8g of group report: the end of `main` (run the validators, report, exit status)
 //@stubof group=report unit=V8g
 
@@ -783,7 +801,13 @@ pub mod validators {
         r is Ok ==> grammar_table() is Some && expected_allow() is Some && expected_ignore() is Some && expected_root() is Some // [M1.post.every_failure_propagates]
             && expected_line_changes() is Some && expected_blocks() is Some,
         // C11: `list`: exit status 0 means the report of the run's blocks was written to stdout
-        r is Ok && is_list_command(process_args()) ==> stdout_write_ok_spec(printable_spec(expected_list_report().unwrap())), // [M1.post.list_ok_means_report_written]
+        r is Ok && is_list_command(process_args()) ==> exists|p: Map<String, Vec<serde_json::Value>>| // [M1.post.list_ok_means_report_written]
+            #[trigger] is_printable(p, expected_list_report().unwrap()) && stdout_write_ok_spec(p),
+        // C11 "`list` prints the selected blocks as one JSON object on stdout and exits 0": under `list`, `main` fails
+        // ONLY if the command line is rejected, a set-up step fails, or stdout did not take the report keyed by printable
+        // paths - never because of what the blocks or the file names are
+        r is Err && is_list_command(process_args()) ==> cli_rejected() || !setup_succeeds() // [M1.post.list_exits_0_unless_setup_or_stdout_write_fails]
+            || exists|p: Map<String, Vec<serde_json::Value>>| #[trigger] is_printable(p, expected_list_report().unwrap()) && !stdout_write_ok_spec(p),
         // C11 / C14: otherwise exit status 0 means: the validators selected by the flags (V10's contract, for the
         // run's blocks and exactly the --disable / --enable sets) were run (V8g) and reported no error-severity diagnostic
         r is Ok && !is_list_command(process_args()) ==> exists|ctx: ValidationContext, s: Vec<Box<dyn ValidatorSync>>, a: Vec<Box<dyn ValidatorAsync>>, en: Set<&'static str>, dis: Set<&'static str>| // [M1.post.ok_means_selected_validators_ran_clean]
@@ -792,6 +816,22 @@ pub mod validators {
             && #[trigger] v10_ok_post(ctx, detector_table(), en, dis, sync_origins(s@), async_origins(a@))
             && validators::run_result(Arc::new(ctx), s, a) is Some
             && !exists_error(validators::run_result(Arc::new(ctx), s, a).unwrap()),
+        // C11 "exits 1 exactly when at least one diagnostic of severity error is produced and exits 0 otherwise": a
+        // validation run that RETURNS fails (`Err`) only for one of these causes: the command line is rejected; a set-up
+        // step fails; a selected detector fails on a block of the run (V10); a validator returns `Err` (`run_result` is
+        // `None`, C13) or stderr did not take the report of what the validators returned (V8g) - never because every
+        // diagnostic is a warning / info / hint, never because of the name of a file. (Exit status 1 for an
+        // error-severity diagnostic is `process::exit(1)` inside V8: `main` does not return then.)
+        r is Err && !is_list_command(process_args()) ==> cli_rejected() || !setup_succeeds() // [M1.post.run_fails_only_for_an_enumerated_cause]
+            || (exists|ctx: ValidationContext, en: Set<&'static str>, dis: Set<&'static str>, i: int, b: BlockWithContext|
+                Some(ctx.blocks@) == expected_blocks()
+                && is_name_set(en, process_args().enabled_validators@) && is_name_set(dis, process_args().disabled_validators@)
+                && #[trigger] in_e(detector_table(), en, dis, i) && #[trigger] ctx_has_block(ctx, b) && detects_by(i, b) is Fails)
+            || (exists|ctx: ValidationContext, s: Vec<Box<dyn ValidatorSync>>, a: Vec<Box<dyn ValidatorAsync>>, en: Set<&'static str>, dis: Set<&'static str>|
+                Some(ctx.blocks@) == expected_blocks()
+                && is_name_set(en, process_args().enabled_validators@) && is_name_set(dis, process_args().disabled_validators@)
+                && #[trigger] v10_ok_post(ctx, detector_table(), en, dis, sync_origins(s@), async_origins(a@))
+                && (validators::run_result(Arc::new(ctx), s, a) matches Some(v) ==> stderr_report_fails(v))),
 //@replaceslice rule=SLICE-CALL of=report:V8g
     proof {
         // C11: under `list`, `main` has returned before this point: the validators never run
